@@ -505,4 +505,5 @@ func (e *Engine) needEptr() {
 	e.eptrDone = true
 	e.d.add("eptr", "(declare-fun eptr (Int Int) Int)\n(declare-fun ebase (Int) Int)\n(declare-fun eidx (Int) Int)\n(declare-fun iselem (Int) Bool)")
 	e.d.addAxiom("core", "eptr_inj", "(forall ((b Int) (i Int)) (! (and (= (ebase (eptr b i)) b) (= (eidx (eptr b i)) i) (iselem (eptr b i)) (> (eptr b i) 0)) :pattern ((eptr b i))))")
+	e.d.addAxiom("core", "eptr_surj", "(forall ((p Int)) (! (=> (iselem p) (= p (eptr (ebase p) (eidx p)))) :pattern ((iselem p))))")
 }
